@@ -29,6 +29,7 @@ from jinja2 import Environment, FileSystemLoader
 from cantools.database.can.node import Node as CanNode
 from fcp.specs.struct_field import StructField
 from fcp.specs.v2 import FcpV2
+from fcp.specs.type import SignedType
 from dataclasses import dataclass
 from fcp.result import Err
 from fcp.encoding import make_encoder, EncodeablePiece, Value, PackedEncoderContext
@@ -182,7 +183,7 @@ def is_signed(value: Value) -> bool:
         bool: True if the value is signed, False otherwise
 
     """
-    return bool(value.type.name.startswith("i"))
+    return isinstance(value.type, SignedType)
 
 
 def create_can_signals(
